@@ -1,7 +1,7 @@
 import SlipVerif.Model.Num
 import SlipVerif.Driver.Util
 --! namespace: num
-/- line protocol for C05:  num <op> <operand>*   operands: q:<n>[/<d>] | b:<n> | r:<n> | d:<hexbits> | s:<hexbits> | l:<prec>:<n>[/<d>] -/
+/- line protocol for C05:  num <op> <operand>*   operands: q:<n>[/<d>] | b:<n> | r:<n> | o:<n> | d:<hexbits> | s:<hexbits> | l:<prec>:<n>[/<d>] -/
 namespace SlipVerif.Driver.Num
 open SlipVerif.Num SlipVerif.Driver
 
@@ -10,6 +10,7 @@ def parseOperand (s : String) : Option Rat :=
   | ["q", v] => parseRat? v
   | ["b", v] => parseRat? v   -- an integer held in a bignum object (any magnitude): same value
   | ["r", v] => parseRat? v   -- an integer held in a ratio object with denominator 1: same value
+  | ["o", v] => parseRat? v   -- an integer 0..255 held in an octet: same value
   | ["d", h] => (parseHexNat? h).bind ofBits64
   | ["s", h] => (parseHexNat? h).bind ofBits32
   | ["l", _prec, v] => parseRat? v   -- long-float: exact dyadic value, decoded by the harness
